@@ -188,6 +188,42 @@ def enum_scalar_unions(shard, nshards):
                             i += 1
 
 
+def enum_hooked_enums(shard, nshards):
+    """An enum (and a str-mixin enum) whose _yatiml_savorize rewrites the scalar with
+    set_value (the documentation's enum_lowercase recipe), nested below line 1: an
+    unknown member at every enum position."""
+    i = 0
+    for mixin in (False, True):
+        col = {'name': 'Color', 'kind': 'enum', 'members': ['RED', 'GREEN'],
+               'savorize': [['scalar_upper']]}
+        if mixin:
+            col['str_mixin'] = True
+        inner = {'name': 'Inner', 'kind': 'obj', 'bases': [], 'params': [
+            {'name': 'n', 'type': 'int'}, {'name': 'color', 'type': ['ref', 'Color']},
+            {'name': 'alt', 'type': ['opt', ['ref', 'Color']], 'default': ['none']}]}
+        outer = {'name': 'Outer', 'kind': 'obj', 'bases': [], 'params': [
+            {'name': 'name', 'type': 'str'}, {'name': 'inner', 'type': ['ref', 'Inner']},
+            {'name': 'items', 'type': ['list', ['ref', 'Inner']]},
+            {'name': 'by_name', 'type': ['dict', 'str', ['ref', 'Color']]}]}
+        spec = {'classes': [col, inner, outer], 'order': ['Color', 'Inner', 'Outer'],
+                'doc_type': ['ref', 'Outer']}
+        def inn(c, alt=None):
+            pairs = [('n', T.S('1')), ('color', T.S(c))]
+            if alt:
+                pairs.append(('alt', T.S(alt)))
+            return T.M(pairs)
+        tree = T.M([('name', T.S('x')), ('inner', inn('red', 'green')),
+                    ('items', T.Q([inn('green'), inn('red', 'red')])),
+                    ('by_name', T.M([('a', T.S('red')), ('b', T.S('green'))]))])
+        paths = [[1, 1, 1, 1, 1, 1], [1, 1, 1, 1, 2, 1], [1, 2, 1, 1, 0, 1, 1, 1],
+                 [1, 2, 1, 1, 1, 1, 1, 1], [1, 2, 1, 1, 1, 1, 2, 1], [1, 3, 1, 1, 0, 1], [1, 3, 1, 1, 1, 1]]
+        for path in paths:
+            if i % nshards == shard:
+                yield {'kind': 'strong', 'model': spec, 'tree': copy.deepcopy(tree),
+                       'corruption': 'enum', 'path': path, 'info': 'RED', 'repl': 'wrongtype'}
+            i += 1
+
+
 def node_at(node, path):
     """Follow a Tree path (see yv.tree.subtrees) through composed nodes."""
     i = 0
@@ -443,4 +479,7 @@ def phases(tier):
                       'class SC with Union[int, str], Optional[int], Union[float, bool, None] '
                       'attributes before int/str/float ones: 12 combinations of valid values x 7 '
                       'corrupted attributes x 7 replacements x 3 positions (document, list item, '
-                      'dict value)')]
+                      'dict value)'),
+            EnumPhase('hooked_enum_template', enum_hooked_enums,
+                      'enum and str-mixin enum with a set_value savorize hook at 7 nested positions '
+                      '(attribute, optional attribute, list items, dict values): unknown member')]
